@@ -271,11 +271,90 @@ def ev_norm(case):
 EVALUATORS = {"lattice": ev_lattice, "selfcheck": ev_selfcheck, "norm": ev_norm}
 
 
+# ----------------------------------------------------------------------------- call histories on one object (added)
+def ev_history(case):
+    """Sequences of calls on ONE likelihood object with ONE theta array that the caller mutates in place between calls:
+    every call must agree with a fresh object evaluated at a fresh copy of the same values (no stale state)."""
+    import inference.likelihoods as L
+    from mc.ref import c05_ref as R
+
+    kind, model, n = case["kind"], case["model"], case["n"]
+    F, J, p = make_model(model, n)
+    cls = getattr(L, R.CLASS_OF[kind])
+    sig = np.array(sigma_vector(case["sigma"], n, 0))
+    thetas = [np.array(t[:p], dtype=float) for t in THETA_MENU[model]]
+    y = F(thetas[0]) + np.array([0.5, -3.0, 30.0, 0.0, -0.5][:n]) * sig
+    fails, tags, nev = [], set(), 0
+    with lib("construct"):
+        obj = cls(y_data=y.copy(), **{("gamma" if kind == "cauchy" else "sigma"): sig.copy()}, forward_model=F, forward_model_jacobian=J)
+    theta = thetas[0].copy()
+    for seq in case["seqs"]:
+        for step, (ti, call) in enumerate(seq):
+            theta[:] = thetas[ti]  # in-place update of the caller's array
+            with lib("fresh-object"):
+                fresh = cls(y_data=y.copy(), **{("gamma" if kind == "cauchy" else "sigma"): sig.copy()}, forward_model=F, forward_model_jacobian=J)
+                want = np.asarray(getattr(fresh, call)(thetas[ti].copy()))
+            with lib(f"history-{call}"):
+                got = np.asarray(getattr(obj, call)(theta))
+            nev += 2
+            if got.shape != want.shape or not np.array_equal(got, want):
+                fails.append(fail(f"history/{R.CLASS_OF[kind]}/{call}-depends-on-earlier-calls",
+                                  f"after {seq[:step]} with theta updated in place, {call} returned {got.tolist()} but a fresh object gives {want.tolist()}",
+                                  sequence=seq, step=step))
+                break
+            if not np.array_equal(theta, thetas[ti]):
+                fails.append(fail(f"history/{R.CLASS_OF[kind]}/theta-modified-by-{call}", f"{theta.tolist()}", sequence=seq))
+        tags.add(f"history:{kind}:{model}")
+    return {"fails": fails[:5], "n": nev, "tags": tags}
+
+
+def ev_many(case):
+    """many data points (hundreds to thousands) with small / large uncertainties: value vs the 50-digit sum of log-densities"""
+    import inference.likelihoods as L
+    from mc.ref import c05_ref as R
+
+    import mpmath as mp
+
+    kind, n, s0 = case["kind"], case["n"], case["scale"]
+    cls = getattr(L, R.CLASS_OF[kind])
+    k = np.arange(n)
+    sig = s0 * (1.0 + 0.5 * ((k * 7) % 11) / 11.0)
+    pred = 0.3 + 0.01 * ((k * 5) % 13)
+    res = np.array([0.0, 0.5, -0.5, 3.0, -3.0, 30.0, -30.0])[k % 7]
+    y = pred + res * sig
+    with lib("construct"):
+        obj = cls(y_data=y, **{("gamma" if kind == "cauchy" else "sigma"): sig}, forward_model=lambda th: pred + th[0] * 0.0, forward_model_jacobian=lambda th: np.zeros((n, 1)))
+    with lib("value"):
+        v = float(obj(np.array([0.0])))
+    ref = mp.mpf(0)
+    tot = mp.mpf(0)
+    for yi, mi, si in zip(y, pred, sig):
+        a, b = R.logpdf(kind, float(yi), float(mi), float(si))
+        ref += a
+        tot += b
+    tol = CTOL * EPS * float(tot) * 4
+    err = abs(v - float(ref)) if np.isfinite(v) else float("inf")
+    fails = []
+    if not err <= tol:
+        fails.append(fail(f"value/{R.CLASS_OF[kind]}/log-density-many-points", f"n={n} sigma~{s0:g}: value {v!r}, reference {float(ref)!r} (|err| {err:.3g} > {tol:.3g})", n=n, scale=s0))
+    return {"fails": fails, "n": 1, "slack": {"many-points-value": (err / tol) if np.isfinite(err) else 1e9}, "tags": {f"many:{kind}:n={n}:scale={s0:g}"}}
+
+
+EVALUATORS.update({"history": ev_history, "many": ev_many})
+
+
 def run(ck):
     from mc.ref import c05_ref as R
 
     quick, seed = ck.quick, ck.seed
     ck.run_cases("selfcheck", [{"kind": k} for k in R.KINDS], chunk=1)
+    import itertools as _it
+
+    calls = ("__call__", "gradient", "cost", "cost_gradient")
+    seqs = [[(a, c1), (b, c2)] for a, b in ((0, 1), (1, 0), (0, 0)) for c1 in calls for c2 in calls]
+    seqs += [[(0, "__call__"), (1, "gradient"), (2, "__call__"), (1, "cost_gradient"), (0, "gradient")]]
+    ck.run_cases("history", [dict(kind=k, model=m, n=3, sigma="mixed", seqs=seqs) for k in R.KINDS for m in ("identity", "linear", "quadratic")], chunk=1)
+    ck.run_cases("many", [dict(kind=k, n=n, scale=sc) for k in R.KINDS for n in ((400, 2000) if ck.quick else (400, 2000, 6000)) for sc in (1e-4, 0.05, 1.0, 30.0, 1e4)], chunk=1)
     alphabet = RES_QUICK if quick else RES_THOROUGH
     sigmas = ["1e-6", "1e-3", "1", "1e3", "mixed"] + ([] if quick else ["mixed2"])
     models = ["identity", "linear", "quadratic"]
